@@ -70,6 +70,7 @@ func runC10(c *Ctx) {
 	c10BystanderListener(c)
 	runListenerCloseKeepsPipes(c)
 	runInprocDialParkedAtClose(c)
+	runInprocDialParkedAtOwnClose(c)
 }
 
 // every protocol at pipe level: after Close, repeated Sends (well-formed for the pattern, and header-less) and Recvs
